@@ -1,5 +1,6 @@
 (* AggregatorProofs.v — lemmas about model/Aggregator.v (property C19). *)
 From Bifrost.model Require Import Base Aggregator.
+From Bifrost.proofs Require Import PartitionProofs.   (* dec_injective *)
 From Coq Require Import Permutation.
 Open Scope Z_scope.
 
@@ -793,7 +794,7 @@ Definition ident := (string * string * string * string)%type.
 Definition sident (s : stat) : ident := (s_comp s, s_name s, s_type s, s_unit s).
 Definition aident (a : agg) : ident := (a_comp a, a_name a, a_type a, a_unit a).
 Definition ikey (i : ident) : string :=
-  let '(c, n, t, u) := i in (c ++ n ++ t ++ u)%string.
+  let '(c, n, t, u) := i in (lenpfx c ++ lenpfx n ++ lenpfx t ++ lenpfx u)%string.
 Definition ident_eqb (x y : ident) : bool :=
   let '(c, n, t, u) := x in let '(c', n', t', u') := y in
   String.eqb c c' && String.eqb n n' && String.eqb t t' && String.eqb u u'.
@@ -809,6 +810,75 @@ Qed.
 
 Lemma akey_ikey s : akey s = ikey (sident s).
 Proof. reflexivity. Qed.
+
+(* ---- the aggregate key is injective in (component, name, type, unit), for ALL byte strings:
+        the decimal length has only digits, ":" is not a digit, so the first ":" ends the length;
+        the length then fixes where the field ends ---- *)
+Fixpoint nocolon (s : string) : Prop :=
+  match s with EmptyString => True | String c r => c <> ":"%char /\ nocolon r end.
+
+Lemma digit_nocolon d : (d < 10)%N -> digit d <> ":"%char.
+Proof.
+  intros Hd He. unfold digit in He.
+  assert (H : N_of_ascii (ascii_of_N (48 + d)) = N_of_ascii ":"%char) by now rewrite He.
+  rewrite N_ascii_embedding in H by lia. change (N_of_ascii ":"%char) with 58%N in H. lia.
+Qed.
+
+Lemma dec_fuel_nocolon : forall f n acc, nocolon acc -> nocolon (dec_fuel f n acc).
+Proof.
+  induction f as [|f IH]; intros n acc Ha; simpl; [assumption|].
+  assert (Hd : nocolon (String (digit (n mod 10)) acc)).
+  { split; [|assumption]. apply digit_nocolon. apply N.mod_lt. discriminate. }
+  destruct (n <? 10)%N; [assumption|]. apply IH. assumption.
+Qed.
+
+Lemma dec_nocolon n : nocolon (dec n).
+Proof. unfold dec. apply dec_fuel_nocolon. exact I. Qed.
+
+Lemma sapp_assoc (a b c : string) : ((a ++ b) ++ c = a ++ (b ++ c))%string.
+Proof. induction a as [|x a IH]; simpl; [reflexivity|]. now rewrite IH. Qed.
+Lemma sapp_nil_r (a : string) : (a ++ "" = a)%string.
+Proof. induction a as [|x a IH]; simpl; [reflexivity|]. now rewrite IH. Qed.
+
+Lemma colon_split : forall d1 d2 x y, nocolon d1 -> nocolon d2 ->
+  (d1 ++ ":" ++ x = d2 ++ ":" ++ y)%string -> d1 = d2 /\ x = y.
+Proof.
+  induction d1 as [|c1 d1 IH]; intros d2 x y H1 H2 He; destruct d2 as [|c2 d2]; simpl in *.
+  - inversion He. auto.
+  - inversion He; subst. destruct H2 as [H2 _]. congruence.
+  - inversion He; subst. destruct H1 as [H1 _]. congruence.
+  - inversion He; subst. destruct H1 as [_ H1], H2 as [_ H2].
+    destruct (IH _ _ _ H1 H2 H3) as [-> ->]. auto.
+Qed.
+
+Lemma sapp_length_split : forall a b x y,
+  String.length a = String.length b -> (a ++ x = b ++ y)%string -> a = b /\ x = y.
+Proof.
+  induction a as [|c a IH]; intros b x y Hl He; destruct b as [|c' b]; simpl in *; try discriminate.
+  - auto.
+  - inversion He; subst. injection Hl as Hl. destruct (IH _ _ _ Hl H1) as [-> ->]. auto.
+Qed.
+
+Lemma lenpfx_inj a b x y : (lenpfx a ++ x = lenpfx b ++ y)%string -> a = b /\ x = y.
+Proof.
+  unfold lenpfx. rewrite !sapp_assoc. intros H.
+  apply colon_split in H; [|apply dec_nocolon|apply dec_nocolon]. destruct H as [Hd H].
+  apply dec_injective in Hd. apply Nat2N.inj in Hd.
+  simpl in H. now apply sapp_length_split.
+Qed.
+
+Theorem ikey_injective i1 i2 : ikey i1 = ikey i2 -> i1 = i2.
+Proof.
+  destruct i1 as [[[c1 n1] t1] u1], i2 as [[[c2 n2] t2] u2]. unfold ikey. intros H.
+  apply lenpfx_inj in H. destruct H as [-> H].
+  apply lenpfx_inj in H. destruct H as [-> H].
+  apply lenpfx_inj in H. destruct H as [-> H].
+  rewrite <- (sapp_nil_r (lenpfx u1)), <- (sapp_nil_r (lenpfx u2)) in H.
+  apply lenpfx_inj in H. destruct H as [-> _]. reflexivity.
+Qed.
+
+Theorem akey_injective s1 s2 : akey s1 = akey s2 -> sident s1 = sident s2.
+Proof. rewrite !akey_ikey. apply ikey_injective. Qed.
 
 Lemma in_inserted s evs : In s (inserted evs) <-> In (Insert s) evs.
 Proof.
@@ -868,22 +938,6 @@ Definition ins_sum_id (w : Z) (id : ident) (bt : Z) (evs : list ev) : Z :=
                                      then s_value s else 0
                        | _ => 0 end) evs).
 
-(* "distinct identities in the history have distinct concatenations" *)
-Definition collision_freeb (evs : list ev) : bool :=
-  forallb (fun s1 => forallb (fun s2 => implb (String.eqb (akey s1) (akey s2))
-                                             (ident_eqb (sident s1) (sident s2)))
-                             (inserted evs)) (inserted evs).
-
-Lemma collision_freeb_sound evs : collision_freeb evs = true ->
-  forall s1 s2, In (Insert s1) evs -> In (Insert s2) evs -> akey s1 = akey s2 -> sident s1 = sident s2.
-Proof.
-  unfold collision_freeb. intros H s1 s2 H1 H2 Hk.
-  rewrite forallb_forall in H. apply in_inserted in H1. apply in_inserted in H2.
-  specialize (H s1 H1). rewrite forallb_forall in H. specialize (H s2 H2).
-  rewrite Hk, String.eqb_refl in H. change (ident_eqb (sident s1) (sident s2) = true) in H.
-  destruct (ident_eqb_spec (sident s1) (sident s2)); [assumption|discriminate].
-Qed.
-
 Lemma esum_id_key w evs id bt r s' :
   (forall s1 s2, In (Insert s1) evs -> In (Insert s2) evs -> akey s1 = akey s2 -> sident s1 = sident s2) ->
   In (Insert s') evs -> sident s' = id ->
@@ -913,12 +967,13 @@ Proof.
 Qed.
 
 Theorem conservation_by_identity : forall w evs st outs id bt,
-  collision_freeb evs = true ->
   arun w [] evs = (st, outs, false) ->
   rep_sum_id id bt outs + open_sum_id id bt st = ins_sum_id w id bt evs.
 Proof.
-  intros w evs st outs id bt Hcfb Hrun.
-  pose proof (collision_freeb_sound _ Hcfb) as Hcf.
+  intros w evs st outs id bt Hrun.
+  assert (Hcf : forall s1 s2, In (Insert s1) evs -> In (Insert s2) evs ->
+                              akey s1 = akey s2 -> sident s1 = sident s2)
+    by (intros s1 s2 _ _; apply akey_injective).
   destruct (existsb (fun s => ident_eqb (sident s) id) (inserted evs)) eqn:Hex.
   - (* the identity occurs in the history: per-identity sums are the per-key sums *)
     apply existsb_exists in Hex. destruct Hex as [s' [Hs' Hid]].
